@@ -36,7 +36,7 @@ func TestMain(m *testing.M) {
 }
 
 var names = []string{"a", "b", "req.time", "c.d", "e", "f_g"}
-var tagSets = [][]string{nil, {"k:v"}, {"env:prod", "k:w"}, {"gsd_histogram:1_5_10", "k:v"}, {"gsd_histogram:20"}}
+var tagSets = [][]string{nil, {"k:v"}, {"env:prod", "k:w"}, {"gsd_histogram:1_5_10", "k:v"}, {"gsd_histogram:20"}, {"k:v", "k:v"}, {"k:w", "env:prod", "k:w"}}
 var sources = []string{"1.2.3.4", "10.0.0.9"}
 var rates = []string{"1", "0.5", "0.25", "0.1", "0.3"}
 var typeStr = map[gostatsd.MetricType]string{gostatsd.COUNTER: "c", gostatsd.TIMER: "ms", gostatsd.GAUGE: "g", gostatsd.SET: "s"}
@@ -206,6 +206,10 @@ func TestPipelineConservation(t *testing.T) {
 			for _, l := range d.lines {
 				m := gen.CopyMetric(l.m)
 				m.Source, m.Timestamp = gostatsd.Source(d.src), gostatsd.Nanotime(d.ts)
+				if withTagStage {
+					// the tag stage removes repeated tags, so "k:v,k:v" is the series "k:v"
+					m.Tags = uniqueTags(m.Tags)
+				}
 				want.AddMetric(m)
 			}
 		}
@@ -365,6 +369,18 @@ func TestPipelineConservation(t *testing.T) {
 
 // flushAgg turns a *flushed* map into the reference form: counters by value, timers by values + sampled count
 // (after Flush the per-interval SampledCount is kept in the timer), sets by members.
+func uniqueTags(tags gostatsd.Tags) gostatsd.Tags {
+	seen := map[string]bool{}
+	var out gostatsd.Tags
+	for _, tg := range tags {
+		if !seen[tg] {
+			seen[tg] = true
+			out = append(out, tg)
+		}
+	}
+	return out
+}
+
 func flushAgg(mm *gostatsd.MetricMap) model.Agg {
 	return model.FromMap(mm)
 }
